@@ -626,6 +626,8 @@ class Program:
                     raise CannotFold(f"helper not foldable: {who}")
             elif isinstance(st, ast.AugAssign) and isinstance(st.op, ast.Add) and isinstance(st.target, ast.Name) and st.target.id in env:
                 env[st.target.id] = env[st.target.id] + self.fold(mod, st.value, env)
+            elif isinstance(st, ast.AugAssign) and isinstance(st.op, (ast.Sub, ast.Mult, ast.FloorDiv, ast.Mod)) and isinstance(st.target, ast.Name) and st.target.id in env:
+                env[st.target.id] = self.fold(mod, ast.BinOp(left=ast.Name(id=st.target.id, ctx=ast.Load()), op=st.op, right=st.value), env)
             elif isinstance(st, ast.Expr) and isinstance(st.value, ast.Call) and isinstance(st.value.func, ast.Attribute) \
                     and isinstance(st.value.func.value, ast.Name) and st.value.func.value.id in env \
                     and st.value.func.attr in ("update", "append", "extend", "add", "setdefault", "pop", "remove", "insert", "clear", "discard", "reverse") and not st.value.keywords:
